@@ -308,8 +308,10 @@ class Check:
             except Exception as e:       # the replay harness could not build this situation: not an audit result
                 self.notes.append(f"native audit skipped for {ob.key}: {type(e).__name__}: {str(e)[:120]}")
                 continue
+            if violated == "inconclusive":
+                continue
             self.audits += 1
-            if violated:
+            if violated is True:
                 self.audit_mismatch.append(f"{ob.key}: discharged by the solver but the real code disagrees natively: {text[:300]}")
         if self.audit_mismatch:
             self.faults.append(f"engine/CPython mismatch on discharged obligations: {self.audit_mismatch[:2]}")
@@ -467,6 +469,12 @@ class Check:
                 except Exception as e:  # replay machinery failure is a checker fault
                     confirmed, rtext = None, f"replay raised {type(e).__name__}: {e}"
             f = self.match_finding(ob)
+            inconclusive = confirmed == "inconclusive"
+            if inconclusive:
+                # the replay harness can only build a stand-in for this instance (e.g. a plain variable for an operand of another
+                # class) and the stand-in does not show the failure: the refuted obligation is reported without a failing input
+                confirmed = True
+                rtext = "native replay inconclusive (stand-in operand): " + rtext
             if ob.replay is not None and confirmed is False:
                 engine_faults.append(f"model of {ob.key} does not reproduce natively: {rtext}")
                 continue
@@ -477,7 +485,9 @@ class Check:
                    "backend": ob.backend, "detail": ob.detail,
                    "replay": {"kind": ob.replay[0], "args": rargs} if ob.replay else None,
                    "native_replay_output": rtext,
-                   "no_failing_input_found": ob.replay is None}
+                   "no_failing_input_found": ob.replay is None or inconclusive}
+            if inconclusive:
+                ob.replay = None
             if f is not None:
                 known.setdefault(f["id"], []).append(ob)
                 continue
